@@ -58,7 +58,7 @@ fn module_plan(t: &mut Tape, p: &Program) -> ModulePlan {
         let is_start = gi >= 0 && p.var(p.globals[gi as usize].var).name == "start";
         file_of.push(if is_start { 0 } else { t.below(nf) });
     }
-    let style = (0..nf).map(|_| (0..nf).map(|_| t.below(4) as u8).collect()).collect();
+    let style = (0..nf).map(|_| (0..nf).map(|_| t.below(5) as u8).collect()).collect();
     let rooted = (0..nf).map(|_| (0..nf).map(|_| t.chance(1, 4)).collect()).collect();
     ModulePlan { files, file_of, style, rooted, paren_lists: t.bool() }
 }
@@ -120,7 +120,12 @@ fn apply_negative(files: &mut BTreeMap<String, String>, main: &str, neg: &Negati
                         Some(i) => line[i + 4..].trim().to_string(),
                         None => syltmodel::print::module_ns(line.split_whitespace().nth(1).unwrap_or("")),
                     };
-                    main_text.contains(&format!("{}.", ns))
+                    // the namespace is used as the *first* segment of a path somewhere (`other.sub.x` does not use `sub`)
+                    let pat = format!("{}.", ns);
+                    main_text.match_indices(&pat).any(|(i, _)| {
+                        let prev = main_text[..i].chars().next_back();
+                        !matches!(prev, Some(c) if c.is_alphanumeric() || c == '_' || c == '.')
+                    })
                 })
                 .collect();
             if imps.is_empty() {
@@ -359,7 +364,7 @@ impl Check for C12 {
         "cases: a random well-typed program (top-level profile) whose blobs, enums and globals are partitioned over 1-5 files in up to \
          three folder levels (main, libq, modw, sub/exports, sub/inner, sub/deep/leaf, other/exports, zeta; `start` stays in main); every \
          cross-file reference to a global, type or variant constructor is written in the style drawn for that (from, to) pair: `use f` + \
-         `f.x`, `use f as ns` + `ns.x`, `from f use x`, `from f use x as y`; relative paths, `/`-rooted paths, folder imports of \
+         `f.x`, `use f as ns` + `ns.x`, `from f use x`, `from f use x as y`, or through a third module (`use g` here, `use f` in g, written `g.f.x` / `g.f.Type`); relative paths, `/`-rooted paths, folder imports of \
          `exports.sy`, parenthesised multi-line import lists; import cycles and diamonds arise from the partition. Oracle: the project is \
          accepted and its mini-Lua trace equals the reference interpreter's trace of the program (which is file-agnostic); a project \
          rejected although its single-file rendering is accepted is a violation. 1 case in 5 is negative: one import statement is deleted, \
@@ -374,7 +379,7 @@ impl Check for C12 {
         if (s.label("accepted") as f64) < 0.5 * s.evaluations as f64 {
             return Err(format!("only {} of {} projects are accepted", s.label("accepted"), s.evaluations));
         }
-        for l in ["style:0", "style:1", "style:2", "style:3", "alias", "rooted-path", "folder-import", "diamond", "import-cycle"] {
+        for l in ["style:0", "style:1", "style:2", "style:3", "style:4", "alias", "rooted-path", "folder-import", "diamond", "import-cycle"] {
             if s.label(l) * 30 < s.evaluations {
                 return Err(format!("import feature {} is (nearly) absent: {} of {}", l, s.label(l), s.evaluations));
             }
